@@ -52,6 +52,8 @@ func (w *world) exec(s sim.Step) {
 		w.duty(abs(s.Arg(0)), abs(s.Arg(1)), s.Arg(2))
 	case "pump":
 		w.pump(abs(s.Arg(0))%40, s.Arg(1))
+	case "pair":
+		w.pairStep(absStep(s))
 	case "timeout":
 		w.timeoutStep(abs(s.Arg(0)), abs(s.Arg(1)), s.Arg(2))
 	case "partial":
@@ -99,6 +101,9 @@ func (w *world) gen(r *sim.Rand) *sim.Step {
 	}
 	if r.Pct(cfg.Get("dec_pct", 0)) {
 		return w.genDec(r)
+	}
+	if w.prop == "C09" && len(w.queue) > 0 && w.forkActive() && r.Pct(12) {
+		return &sim.Step{Op: "pair", A: []int64{int64(r.Weighted(4, 4, 2)), i64(r)}}
 	}
 	if len(w.queue) > 0 && r.Pct(55) {
 		mask := int64(-1) // all mutants in a quarter of the pumps, a random quarter / eighth of them otherwise (RSA re-signing dominates the cost)
